@@ -353,6 +353,13 @@ def har_model_stage(ctx, rng, thorough, T, B, wfile):
     hars.append(('all-dropped', [ent(U + 'p', method=POST)], U + 'p'))
     # 5. primary URL that is not among the exchanges (Validate), with and without -ignoreErrors; primary naming a dropped entry
     hars.append(('primary-missing', [ent(U + 'a', res=[CT]), ent(U + 'gone', method=POST)], U + 'gone'))
+    # 6. -headerOverride (Header.Set of every exchange, in flag order): replacing an existing field in any letter case, adding one, value trimming,
+    #    empty value, a second override of the same name, a pseudo-header name, a name that is not a token, no colon at all (index out of range)
+    OV = [['X-Ok: replaced'], ['x-ok:  padded \t'], ['CONTENT-TYPE:text/html', 'Content-Type: image/png'], ['X-New:'], ['X-New: a: b'], [':status: 404'], ['Has Space: v'], ['Variants: Accept-Language;en'],
+          ['nocolon'], ['X-Ok: fine', 'nocolon'], [': novalue']]
+    for oi, ov in enumerate(OV):
+        hars.append((f'override-{oi}', [ent(U + 'a', res=[CT, ('X-Ok', 'orig'), ('x-ok', 'orig2')], body=b'alpha'), ent(U + 'b', res=[CT], body=b'beta!')], U + 'a', ov))
+    hars.append(('override-nocolon-empty', [ent(U + 'p', method=POST)], U + 'p', ['nocolon']))
     if thorough:
         for k in range(12):
             es = [ent(U + rng.choice('abc'), method=rng.choice([GET, GET, GET, POST]), status=rng.choice([200, 200, 404, 99, 301]),
@@ -374,7 +381,10 @@ def har_model_stage(ctx, rng, thorough, T, B, wfile):
         if not r or r == '0' or not r.startswith('1:'): return None
         return r.split(':')[4]
     def nv(l): return '.' if not l else ','.join(f'{hexs(n.encode())}={hexs(v.encode())}' for n, v in l)
-    for hi, (name, es, prim) in enumerate(hars):
+    for hi, h4 in enumerate(hars):
+        name, es, prim = h4[:3]
+        ovs = h4[3] if len(h4) > 3 else []
+        ovtok = '.' if not ovs else ','.join(hexs(o.encode()) for o in ovs)
         harp = wfile(f'm{hi}.har', to_json(es))
         toks = []
         for e in es:
@@ -382,12 +392,12 @@ def har_model_stage(ctx, rng, thorough, T, B, wfile):
             toks.append('~'.join([k if k is not None else '!', hexs(e['method'].encode()), str(e['status']), nv(e['req']), nv(e['res']), '!' if e['badb64'] else hexs(e['body'])]))
         pk = keyof(prim)
         for ver in ('b1', 'b2'):
-            for ig in ((0, 1) if name in ('primary-missing', 'all-dropped', 'empty-har', 'filters') else (0,)):
+            for ig in ((0, 1) if name in ('primary-missing', 'all-dropped', 'empty-har', 'filters', 'override-nocolon-empty') else (0,)):
                 for with_primary in ((True,) if ver == 'b1' else (True, False)):
                     outp = os.path.join(T, f'm{hi}-{ver}-{ig}-{int(with_primary)}.wbn')
-                    cmd = [B('gen-bundle'), '-har', harp, '-version', ver, '-o', outp] + (['-primaryURL', prim] if with_primary else []) + (['-ignoreErrors'] if ig else [])
+                    cmd = [B('gen-bundle'), '-har', harp, '-version', ver, '-o', outp] + (['-primaryURL', prim] if with_primary else []) + (['-ignoreErrors'] if ig else []) + [x for o in ovs for x in ('-headerOverride', o)]
                     rc, _, err = sh(cmd)
-                    mres = ctx.model([f"c20.har {ver} {pk if with_primary else 'nil'} nil {ig} {' '.join(toks)}".rstrip()])[0] or 'model-failed'
+                    mres = ctx.model([f"c20.har {ver} {pk if with_primary else 'nil'} nil {ig} {ovtok} {' '.join(toks)}".rstrip()])[0] or 'model-failed'
                     got = 'panic' if b'panic:' in err or b'goroutine ' in err else ('failed' if rc != 0 else 'wrote ' + hexs(open(outp, 'rb').read()) if os.path.exists(outp) else 'exit0-no-file')
                     exp = ' '.join(mres.split(' ')[:2]) if mres.startswith('wrote ') else mres
                     op = f'c20.har-model {name} {ver} ignoreErrors={ig} primary={int(with_primary)}'
